@@ -1,8 +1,10 @@
 import AmcVerif.Lemmas.Loops2
 import AmcVerif.Model.Vec
-/-! Container-level representation: `VRepC cfg Ok c m xs cap` says that pool container `c` of memory `m` holds exactly the
-elements `xs` in a buffer of capacity `cap` whose other slots are raw; `SizeLaws` is the flavour-independent part of the
-laws of the generated size members; `Frame` says what an operation on container `c` leaves alone. -/
+/-! Container-level representation: `VRepW cfg Ok c m xs w` says that pool container `c` of memory `m`, with size/capacity/
+pointer words `w`, holds exactly the elements `xs` at the start of its buffer and nothing else (all other slots raw);
+`SizeLaws` is the flavour-independent part of the laws of the generated size members, `GrowSpec` what a flavour's `grow`
+guarantees, `FrameG` what an operation on container `c` leaves alone; `StrongPost` / `BasicPost` are the outcome shapes
+of the public operations (strong / basic exception guarantee, never a lifetime fault). -/
 namespace AmcVerif
 variable {α β γ : Type}
 
@@ -35,12 +37,35 @@ theorem resolve_eq (cfg : Cfg) (c : Nat) (w : VB) : resolve c c (cfg.ops.begin w
   cases h : resolve c c (cfg.ops.begin w) with
   | mk r i => rw [h] at this; simp at this; subst this; rfl
 
-/-- container `c` holds exactly `xs`, in words `w`, with capacity `cap` -/
-structure VRepW (cfg : Cfg) (Ok : VB → Prop) (c : Nat) (m : Mem α) (xs : List α) (w : VB) : Prop where
+/-- the storage of container `c`: its words `w` are registered in the pool and satisfy the flavour invariant `Ok`; the
+    region they point to holds the buffer `b` of exactly `capacity` slots (a container of capacity 0 may have no buffer at
+    all: `amc::vector` with a null pointer); a heap block was allocated with exactly `capacity` elements; and a SmallVector
+    in heap state has nothing left in its inline storage -/
+structure Store (cfg : Cfg) (Ok : VB → Prop) (c : Nat) (m : Mem α) (w : VB) (b : List (Slot α)) : Prop where
   ws : m.ws[c]? = some w
   ok : Ok w
+  len : b.length = cfg.ops.capacity w
+  buf : cfg.ops.capacity w = 0 ∨ m.buf (regionOf cfg c w) = some b
+  cnt : ∀ id, regionOf cfg c w = .blk id → cfg.ops.capacity w ≠ 0 → m.cnt id = some (cfg.ops.capacity w)
+  inl : regionOf cfg c w ≠ .inl c → cfg.flavour = .small → m.buf (.inl c) = some (raws cfg.n)
+
+/-- container `c` holds exactly `xs`, in words `w`: the first `size` slots of its buffer are the live elements, all other
+    slots are raw -/
+structure VRepW (cfg : Cfg) (Ok : VB → Prop) (c : Nat) (m : Mem α) (xs : List α) (w : VB) : Prop where
+  store : Store cfg Ok c m w (lives xs ++ raws (cfg.ops.capacity w - xs.length))
   size : cfg.ops.size w = xs.length
-  buf : cfg.ops.capacity w = 0 ∨ m.buf (regionOf cfg c w) = some (lives xs ++ raws (cfg.ops.capacity w - xs.length))
+
+theorem VRepW.ws {cfg : Cfg} {Ok : VB → Prop} {c : Nat} {m : Mem α} {xs : List α} {w : VB} (h : VRepW cfg Ok c m xs w) :
+    m.ws[c]? = some w := h.store.ws
+theorem VRepW.ok {cfg : Cfg} {Ok : VB → Prop} {c : Nat} {m : Mem α} {xs : List α} {w : VB} (h : VRepW cfg Ok c m xs w) :
+    Ok w := h.store.ok
+theorem VRepW.buf {cfg : Cfg} {Ok : VB → Prop} {c : Nat} {m : Mem α} {xs : List α} {w : VB} (h : VRepW cfg Ok c m xs w) :
+    cfg.ops.capacity w = 0 ∨ m.buf (regionOf cfg c w) = some (lives xs ++ raws (cfg.ops.capacity w - xs.length)) := h.store.buf
+theorem VRepW.le {cfg : Cfg} {Ok : VB → Prop} {c : Nat} {m : Mem α} {xs : List α} {w : VB} (h : VRepW cfg Ok c m xs w) :
+    xs.length ≤ cfg.ops.capacity w := by
+  have := h.store.len
+  simp only [List.length_append, lives_length, raws_length] at this
+  omega
 
 def VRep (cfg : Cfg) (Ok : VB → Prop) (c : Nat) (m : Mem α) (xs : List α) : Prop := ∃ w, VRepW cfg Ok c m xs w
 
@@ -151,23 +176,48 @@ theorem setSize_post (cfg : Cfg) (m : Mem α) (c : Nat) (w : VB) (s : Nat) (h : 
   rw [Nat.mod_eq_of_lt (by omega)]
   exact setW_post m1 c _
 
-/-- committing new words `w'` for container `c` over a memory whose buffer already has the new shape -/
-theorem VRepW.commit {cfg : Cfg} {Ok : VB → Prop} {c : Nat} {m : Mem α} {w w' : VB} {xs' : List α}
-    (hws : m.ws[c]? = some w) (hok : Ok w') (hsz : cfg.ops.size w' = xs'.length)
-    (hbuf : cfg.ops.capacity w' = 0 ∨ m.buf (regionOf cfg c w') = some (lives xs' ++ raws (cfg.ops.capacity w' - xs'.length))) :
-    VRepW cfg Ok c ({ m with ws := m.ws.set c w' } : Mem α) xs' w' := by
+theorem regionOf_congr (cfg : Cfg) (c : Nat) (w w' : VB) (h : cfg.ops.begin w' = cfg.ops.begin w) :
+    regionOf cfg c w' = regionOf cfg c w := by unfold regionOf; rw [h]
+
+/-- an element-level update of the buffer of container `c` -/
+theorem Store.set {cfg : Cfg} {Ok : VB → Prop} {c : Nat} {m m' : Mem α} {w : VB} {b b' : List (Slot α)}
+    (h : Store cfg Ok c m w b) (hb : m'.buf = View.set m.buf (regionOf cfg c w) b') (hl : b'.length = b.length) (hk : Keep m m') :
+    Store cfg Ok c m' w b' := by
+  refine ⟨by rw [hk.ws]; exact h.ws, h.ok, hl.trans h.len, Or.inr (by rw [hb]; simp), fun id hr hc => by rw [hk.cnt]; exact h.cnt id hr hc, ?_⟩
+  intro hne hfl
+  rw [hb, View.set_other _ _ _ _ (Ne.symm hne)]
+  exact h.inl hne hfl
+
+theorem Store.same {cfg : Cfg} {Ok : VB → Prop} {c : Nat} {m m' : Mem α} {w : VB} {b : List (Slot α)}
+    (h : Store cfg Ok c m w b) (hs : Same m m') : Store cfg Ok c m' w b :=
+  ⟨by rw [hs.2.ws]; exact h.ws, h.ok, h.len, by rw [hs.1]; exact h.buf, fun id hr hc => by rw [hs.2.cnt]; exact h.cnt id hr hc,
+   fun hne hfl => by rw [hs.1]; exact h.inl hne hfl⟩
+
+theorem withWs_cnt (m : Mem α) (ws : List VB) (id : Nat) : ({ m with ws := ws } : Mem α).cnt id = m.cnt id := rfl
+
+/-- new words for container `c` that keep the buffer pointer and the capacity -/
+theorem Store.withWs {cfg : Cfg} {Ok : VB → Prop} {c : Nat} {m : Mem α} {w w' : VB} {b : List (Slot α)}
+    (h : Store cfg Ok c m w b) (hok : Ok w') (hbeg : cfg.ops.begin w' = cfg.ops.begin w) (hcap : cfg.ops.capacity w' = cfg.ops.capacity w) :
+    Store cfg Ok c ({ m with ws := m.ws.set c w' } : Mem α) w' b := by
   have hc : c < m.ws.length := by
     rcases Nat.lt_or_ge c m.ws.length with h1 | h1
     · exact h1
-    · simp [List.getElem?_eq_none h1] at hws
-  refine ⟨by simp [hc], hok, hsz, ?_⟩
-  rw [withWs_buf]; exact hbuf
+    · have := h.ws; simp [List.getElem?_eq_none h1] at this
+  have hreg := regionOf_congr cfg c w w' hbeg
+  refine ⟨by simp [hc], hok, by rw [hcap]; exact h.len, ?_, ?_, ?_⟩
+  · rw [withWs_buf, hreg, hcap]; exact h.buf
+  · intro id hr hne; rw [withWs_cnt, hcap]; exact h.cnt id (hreg ▸ hr) (hcap ▸ hne)
+  · intro hne hfl; rw [withWs_buf]; exact h.inl (hreg ▸ hne) hfl
+
+/-- committing new words `w'` (same buffer pointer, same capacity) once the buffer holds `xs'` followed by raw slots -/
+theorem VRepW.commit {cfg : Cfg} {Ok : VB → Prop} {c : Nat} {m : Mem α} {w w' : VB} {xs' : List α}
+    (h : Store cfg Ok c m w (lives xs' ++ raws (cfg.ops.capacity w - xs'.length))) (hok : Ok w')
+    (hbeg : cfg.ops.begin w' = cfg.ops.begin w) (hcap : cfg.ops.capacity w' = cfg.ops.capacity w) (hsz : cfg.ops.size w' = xs'.length) :
+    VRepW cfg Ok c ({ m with ws := m.ws.set c w' } : Mem α) xs' w' :=
+  ⟨by rw [hcap]; exact h.withWs hok hbeg hcap, hsz⟩
 
 theorem Frame.withWs (c : Nat) (rs : List Region) (m : Mem α) (w : VB) : Frame c rs m ({ m with ws := m.ws.set c w } : Mem α) :=
   ⟨rfl, rfl, by simp, fun c' hc => by simp [List.getElem?_set_ne (Ne.symm hc)], fun r' _ => by rw [withWs_buf]⟩
-
-theorem regionOf_congr (cfg : Cfg) (c : Nat) (w w' : VB) (h : cfg.ops.begin w' = cfg.ops.begin w) :
-    regionOf cfg c w' = regionOf cfg c w := by unfold regionOf; rw [h]
 
 /-- `adjustCapacity` when the capacity suffices: nothing happens -/
 theorem adjustCapacity_room (cfg : Cfg) (Ok : VB → Prop) (L : SizeLaws cfg.ops Ok) (m : Mem α) (c : Nat) (w : VB) (needed : Nat)
@@ -238,7 +288,7 @@ def GrowPost (cfg : Cfg) (Ok : VB → Prop) (c : Nat) (m : Mem α) (xs : List α
 /-- what the flavour's `grow` guarantees (proved per flavour; vacuous for FixedCapacityVector, which never grows) -/
 def GrowSpec (α : Type) (cfg : Cfg) (Ok : VB → Prop) : Prop :=
   cfg.dynamic = true → ∀ (m : Mem α) (c : Nat) (xs : List α) (w : VB) (needed : Nat) (exact : Bool),
-    VRepW cfg Ok c m xs w → Fresh m → cfg.ops.capacity w < needed →
+    VRepW cfg Ok c m xs w → Fresh m → cfg.ops.capacity w < needed → (exact = true → needed ≤ cfg.ops.kMax) →
     Post (grow cfg c needed exact) m (GrowPost cfg Ok c m xs w needed)
 
 /-- the laws a flavour has to provide -/
@@ -266,7 +316,7 @@ theorem adjustCapacity_post {cfg : Cfg} {Ok : VB → Prop} (L : VecLaws α cfg O
       refine Post.bind (vcap_post cfg m c w h.ws) ?_ (by okerr)
       rintro k m1 ⟨hk, rfl⟩; injection hk with hk; subst hk
       rw [if_pos (by omega)]
-      exact L.grow hd m1 c xs w needed false h hf (by omega)
+      exact L.grow hd m1 c xs w needed false h hf (by omega) (by simp)
     · rw [if_neg hd, if_pos (L.checked (by simpa using hd))]
       refine Post.bind (vcap_post cfg m c w h.ws) ?_ (by okerr)
       rintro k m1 ⟨hk, rfl⟩; injection hk with hk; subst hk
@@ -319,7 +369,7 @@ theorem adjustCapacityRef_post {cfg : Cfg} {Ok : VB → Prop} (L : VecLaws α cf
       rintro b m2 ⟨hb, rfl⟩; injection hb with hb; subst hb
       refine Post.bind (vsize_post cfg m2 c w h.ws) ?_ (by okerr)
       rintro sz m3 ⟨hsz, rfl⟩; injection hsz with hsz; subst hsz
-      refine Post.bind (L.grow hd m3 c xs w needed false h hf (by omega)) ?_ ?_
+      refine Post.bind (L.grow hd m3 c xs w needed false h hf (by omega) (by simp)) ?_ ?_
       · rintro _ m4 ⟨hq, hfr⟩
         rcases hq with ⟨_, w', ⟨hw', hcap, hreg⟩⟩ | ⟨e, he, _⟩
         · cases ref with
@@ -370,14 +420,9 @@ end AmcVerif
 namespace AmcVerif
 variable {α β γ : Type}
 
-theorem VRepW.ofView {cfg : Cfg} {Ok : VB → Prop} {c : Nat} {m m' : Mem α} {xs : List α} {w : VB}
-    (h : VRepW cfg Ok c m xs w) (hws : m'.ws = m.ws) (hb : m'.buf (regionOf cfg c w) = m.buf (regionOf cfg c w)) :
-    VRepW cfg Ok c m' xs w :=
-  ⟨by rw [hws]; exact h.ws, h.ok, h.size, by rw [hb]; exact h.buf⟩
-
 theorem VRepW.ofSame {cfg : Cfg} {Ok : VB → Prop} {c : Nat} {m m' : Mem α} {xs : List α} {w : VB}
     (h : VRepW cfg Ok c m xs w) (hs : Same m m') : VRepW cfg Ok c m' xs w :=
-  h.ofView hs.2.ws (by rw [hs.1])
+  ⟨h.store.same hs, h.size⟩
 
 theorem View.set_isSome (v : View α) (r : Region) (b : List (Slot α)) (h : (v r).isSome) (r' : Region) :
     ((v.set r b) r').isSome = (v r').isSome := by
@@ -437,6 +482,9 @@ def BasicPost (cfg : Cfg) (Ok : VB → Prop) (c : Nat) (m : Mem α) (w : VB) (xs
   fun res m' => ((res = .ok okv ∧ VRep cfg Ok c m' xs') ∨ (∃ e xs'', res = .error (.exc e) ∧ VRep cfg Ok c m' xs''))
     ∧ FrameG c (regionOf cfg c w) m m'
 
+theorem lives_snoc (xs : List α) (v : α) (rest : List (Slot α)) : lives xs ++ .live v :: rest = lives (xs ++ [v]) ++ rest := by
+  simp [lives]
+
 theorem raws_succ_sub (cap len : Nat) (h : len + 1 ≤ cap) : (raws (cap - len) : List (Slot α)) = .raw :: raws (cap - (len + 1)) := by
   have : cap - len = (cap - (len + 1)) + 1 := by omega
   rw [this]; simp [raws, List.replicate_succ]
@@ -476,10 +524,11 @@ theorem pushBackCopy_post {cfg : Cfg} {Ok : VB → Prop} (L : VecLaws α cfg Ok)
           refine Post.mono (incrSize_post cfg m3 c w' hws3) ?_
           rintro res m4 ⟨hr4, rfl⟩
           have hl := L.size.incr w' hw'.ok (by rw [hw'.size]; omega)
-          refine ⟨Or.inl ⟨hr4, _, VRepW.commit hws3 hl.1 (by rw [hl.2.1, hw'.size]; simp) (Or.inr ?_)⟩, ?_⟩
-          · rw [regionOf_congr cfg c _ _ hl.2.2.2, hl.2.2.1, hb3]
-            simp [lives]
-          · exact (hfr.elem hreg (hw'.isSome (by omega)) hb3 hk3).withWs _
+          rw [lives_snoc] at hb3
+          have hst3 := hw'.store.set hb3 (by simp; omega) hk3
+          refine ⟨Or.inl ⟨hr4, _, VRepW.commit (xs' := xs ++ [v]) (by simpa using hst3) hl.1 hl.2.2.2 hl.2.2.1
+            (by rw [hl.2.1, hw'.size]; simp)⟩, ?_⟩
+          exact (hfr.elem hreg (hw'.isSome (by omega)) hb3 hk3).withWs _
         · cases he
       · rintro e m3 hq3
         rcases hq3 with ⟨he, _⟩ | ⟨he, hs3⟩
